@@ -120,15 +120,17 @@ E_KeepsWorking(c, g, lg, p, i, gc, req, o) ==
 \*  is refused at her first revalidation by the code: that is known finding D3 of C11; this rule does not speak of her)
 
 \* IdP trouble alone never ends a session whose checks are not due
+\* (whether the authenticator is called although nothing is due is not the statement's business - a call started
+\* for an earlier request may still be on its way; the mechanism's prediction of the calls is compared as drift)
 E_NoCheckNoCall(c, g, lg, p, i, gc, req, o) ==
-   (NonSkip(req) /\ Sound(c, p) /\ Due(c) = "none") => ((o.reached \/ req.kind = "authonly") /\ o.calls = {})
+   (NonSkip(req) /\ Sound(c, p) /\ Due(c) = "none") => (o.reached \/ req.kind = "authonly")
 
 LifeRules(c, g, lg, p, i, gc, req, o) ==
    [ C04_E2E_RevocationReaches |-> E_RevocationReaches(c, g, lg, p, i, gc, req, o),
      C04_E2E_RemovalReaches    |-> E_RemovalReaches(c, g, lg, p, i, gc, req, o),
      C04_E2E_DeniedAtOnce      |-> E_DeniedAtOnce(c, g, lg, p, i, gc, req, o),
      C04_E2E_KeepsWorking      |-> E_KeepsWorking(c, g, lg, p, i, gc, req, o),
-     C04_E2E_NoCheckNoCall     |-> E_NoCheckNoCall(c, g, lg, p, i, gc, req, o) ]
+     C04_E2E_NotDueStillServed     |-> E_NoCheckNoCall(c, g, lg, p, i, gc, req, o) ]
 
 LifeViolated(c, g, lg, p, i, gc, req, o) ==
    LET rs == LifeRules(c, g, lg, p, i, gc, req, o) IN { n \in DOMAIN rs : ~rs[n] }
